@@ -425,8 +425,13 @@ pub fn generate_contract(rng: &mut Rng, idx: u64) -> String {
     s.push_str("#[starknet::interface]\ntrait IGen<T> {\n");
     let mut bodies = vec![];
     for i in 0..n_ext {
-        let kind = rng.below(9);
+        let kind = rng.below(14);
         let (sig, body) = match kind {
+            9 => (format!("fn f{i}(self: @T, m: felt252) -> felt252"), "{ let p = EcPointTrait::new_from_x(1).unwrap(); let mut s = EcStateTrait::init(); s.add_mul(m, p.try_into().unwrap()); s.add(p.try_into().unwrap()); match s.finalize_nz() { Option::Some(r) => r.x(), Option::None => 0 } }".to_string()),
+            10 => (format!("fn f{i}(self: @T, a: felt252, b: u128) -> felt252"), "{ let h = core::pedersen::pedersen(a, b.into()); let q = core::poseidon::poseidon_hash_span([h, a].span()); let w: u128 = (b & 255) ^ 7; q + w.into() }".to_string()),
+            11 => (format!("fn f{i}(self: @T, a: u64, b: u64) -> u128"), "{ let in1 = CircuitElement::<CircuitInput<0>> {}; let in2 = CircuitElement::<CircuitInput<1>> {}; let add = circuit_add(in1, in2); let mul = circuit_mul(add, in2); let modulus = TryInto::<_, CircuitModulus>::try_into([7, 0, 0, 0]).unwrap(); let a96: u96 = core::internal::bounded_int::upcast(a); let b96: u96 = core::internal::bounded_int::upcast(b); let outputs = (mul,).new_inputs().next([a96, 0, 0, 0]).next([b96, 0, 0, 0]).done().eval(modulus).unwrap(); let r: u96 = outputs.get_output(mul).limb0; core::internal::bounded_int::upcast::<u96, u128>(r) }".to_string()),
+            12 => (format!("fn f{i}(self: @T, a: u256, b: u256) -> u256"), "core::keccak::keccak_u256s_le_inputs([a, b].span())".to_string()),
+            13 => (format!("fn f{i}(ref self: T, a: felt252, k: u8) -> felt252"), "{ let mut d: Felt252Dict<felt252> = Default::default(); d.insert(k.into(), a); let h = core::pedersen::pedersen(d.get(k.into()), self.x.read()); self.x.write(h); let m: u8 = k & 3; h + m.into() }".to_string()),
             0 => (format!("fn f{i}(self: @T, a: felt252, b: felt252) -> felt252"), "core::pedersen::pedersen(a, b)".to_string()),
             1 => (format!("fn f{i}(self: @T, a: felt252, b: felt252) -> felt252"), "core::poseidon::poseidon_hash_span([a, b].span())".to_string()),
             2 => (format!("fn f{i}(self: @T, a: u128, b: u128) -> u128"), "(a & b) | (a ^ b)".to_string()),
@@ -440,7 +445,7 @@ pub fn generate_contract(rng: &mut Rng, idx: u64) -> String {
         s.push_str(&format!("    {sig};\n"));
         bodies.push((sig.replace(": @T", ": @ContractState").replace(": T", ": ContractState"), body));
     }
-    s.push_str("}\n\n#[starknet::contract]\nmod gen_contract {\n    #[allow(unused_imports)]\n    use starknet::storage::{StoragePointerReadAccess, StoragePointerWriteAccess};\n    #[allow(unused_imports)]\n    use core::dict::{Felt252Dict, Felt252DictTrait};\n    #[storage]\n    struct Storage { x: felt252 }\n");
+    s.push_str("}\n\n#[starknet::contract]\nmod gen_contract {\n    #[allow(unused_imports)]\n    use starknet::storage::{StoragePointerReadAccess, StoragePointerWriteAccess};\n    #[allow(unused_imports)]\n    use core::dict::{Felt252Dict, Felt252DictTrait};\n    #[allow(unused_imports)]\n    use core::ec::{EcPointTrait, EcStateTrait};\n    #[allow(unused_imports)]\n    use core::circuit::{CircuitElement, CircuitInput, circuit_add, circuit_mul, EvalCircuitTrait, u96, CircuitOutputsTrait, CircuitModulus, AddInputResultTrait, CircuitInputs};\n    #[storage]\n    struct Storage { x: felt252 }\n");
     if rng.bool() {
         s.push_str("    #[constructor]\n    fn constructor(ref self: ContractState, init: felt252) { self.x.write(init); }\n");
     }
